@@ -26,4 +26,5 @@ e5686d1 C27 managed write batch: same key and version written twice with another
 f9e2e6e C38 StreamWriter.Flush while a commit is between its write and doneCommit
 865469e C25 a transaction commits between the creation of two stream producers' transactions
 e42781a C29 a commit passes the blockWrites check, DropPrefix blocks writes before the request is sent
+f93ab27 C12 base level over target, big L0 table from a first L0->L0 compaction holding the value, delete, second L0->L0 compaction
 L
